@@ -12,6 +12,9 @@
 //! `consts[i].ty` is the type recorded for the root initializer span (TypeCheckInfo.expr_types);
 //! `kind`/`value` come from TypeCheckInfo.const_kinds / const_values.
 //! `<rexpr>`: the emitted Rust initializer as a small tree (see `rexpr`).
+//! With `"project": "<dir>", "name": "<crate>"` the generated cargo project is written to <dir>
+//! (IrCodegen::try_generate + ProjectGenerator::generate, as `incan build` does) and the reply is
+//! `{"parse":"ok","project":"written"|"<error>"}`; the check builds and runs it with real cargo.
 use crate::common::{catch, each_line};
 use incan::frontend::ast::*;
 use incan::frontend::diagnostics::CompileError;
@@ -265,6 +268,17 @@ fn one(line: &str) -> Value {
         Ok(()) => vec![],
         Err(es) => errs(&es),
     };
+    // thorough tier: write the generated cargo project (what `incan build` writes) into a directory
+    if let Some(dir) = v["project"].as_str() {
+        let name = v["name"].as_str().unwrap_or("c06batch");
+        return match incan::IrCodegen::new().try_generate(&prog) {
+            Ok(rust) => match incan::ProjectGenerator::new(dir, name, true).generate(&rust) {
+                Ok(()) => json!({"parse": "ok", "project": "written", "errors": e}),
+                Err(e) => json!({"parse": "ok", "project": format!("io error: {}", e)}),
+            },
+            Err(err) => json!({"parse": "ok", "project": format!("codegen: {}", err)}),
+        };
+    }
     let emit = if want_emit {
         match incan::IrCodegen::new().try_generate(&prog) {
             Ok(rust) => emitted_consts(&rust),
